@@ -23,6 +23,7 @@ var Rules = []report.Rule{
 	{ID: "V13", Floor: 3000, Props: []string{"C18"}, Text: "event typestate in site/condition form: Done emitted once by the first-registered defer; Error(err) once on the Wait-failed edge with the returned error, Success once before the final return nil, no other exits; skipped sweep deferred before the first Enqueue, testing each task's ran flag, every task struct swept once; per task: Success iff call returned without error, Error/ErrorRecovered(err) iff err != nil, Panic/PanicRecovered(recovered) iff recovered != nil in the handler, ran.Store(true) once past the gate before the call, TaskDone by the first-registered defer guarded by ran.Load(); emitters built by XInit iff instrumented, with this task's name"},
 	{ID: "V17", Floor: 300, Props: []string{"C12", "C18"}, Text: "the ran flags are sync/atomic values used only through their methods"},
 	{ID: "V8", Floor: 1000, Props: []string{"C05", "C06"}, Text: "exactly one unconditional Wait; no return between NewScheduler and Wait; no Enqueue after Wait"},
+	{ID: "T2", Floor: 1000, Props: []string{"C15"}, Text: "in every expanded variant a user expression is printed only as its hoisted variable; the raw expression text appears only in the prologue, as `<variable> := <raw>` once per recorded expression; no ast.Expr/types.Type value is printed bare"},
 	{ID: "V16", Floor: 1000, Props: []string{"C13", "C20", "C10", "C02"}, Text: "every expanded directive parses and type-checks under adversarial import aliases"},
 }
 
@@ -52,6 +53,13 @@ func runOne(in *Instance, s *report.Sink) {
 	rc := &ruleCtx{x: x, s: s}
 	if !rc.wellTyped() {
 		return
+	}
+	if in.Origin == "X" {
+		if len(in.T2) > 0 {
+			s.Bad("T2", rc.key("hoisting discipline"), in.Key, in.T2[0])
+		} else {
+			s.OK("T2", rc.key("hoisting discipline"), "", "user expressions appear only as hoisted variables; raw text only in the prologue definitions")
+		}
 	}
 	for _, p := range x.Problems {
 		s.Unk("V1", rc.key("shape: "+p), in.Key, "generated code shape not recognised: "+p)
